@@ -2379,6 +2379,27 @@ def sc_maybe_delete_axes(P):
     return out
 
 
+def sc_get_dims(P):
+    """get_dims(*arrays): the dimension names of the operands, each once, in the order in which they first show up (first operand first)"""
+    out = []
+
+    def case(label, *dimss):
+        out.append((label, lambda: ([mk_array(P, chr(65 + i), d, tuple(2 + j for j, _ in enumerate(d)), overrides=std_overrides(P)) for i, d in enumerate(dimss)], {},
+                                    {'overrides': std_overrides(P), 'post': lambda itp, r: render(list(itp.iterate(r)) if not isinstance(r, (list, tuple)) else list(r))})))
+    case('no operand')
+    case('one operand', ('x', 'y'))
+    case('0-d operand', ())
+    case('same dimensions', ('x', 'y'), ('x', 'y'))
+    case('same dimensions in another order', ('x', 'y'), ('y', 'x'))
+    case('second operand brings a new dimension first', ('x',), ('s', 'x'))
+    case('second operand brings new dimensions around a shared one', ('x',), ('s', 'x', 't'))
+    case('disjoint dimensions', ('y',), ('x',))
+    case('names not in alphabetical order', ('time', 'lat'), ('lon', 'lat'))
+    case('three operands', ('x',), ('y', 'x'), ('z', 'y'))
+    case('0-d first', (), ('x', 'y'))
+    return out
+
+
 def sc_axes_from(P):
     """Axes.from_shape / from_arrays / from_dict called directly"""
     out = []
@@ -2392,6 +2413,7 @@ SCENARIOS = {
     'dimarray.core.bases.AbstractHasAxes._getaxes_ortho': (('C01', 'C02'), sc_getaxes_ortho),
     'dimarray.core.indexing._locate_slice_strict': (('C02',), sc_locate_slice_strict),
     'dimarray.dataset.Dataset._maybe_delete_axes': (('C13',), sc_maybe_delete_axes),
+    'dimarray.core.align.get_dims': (('C04', 'C10'), sc_get_dims),
     'dimarray.core.axes._init_axes': (('C05',), sc_init_axes),
     'dimarray.tools.is_array1d_equiv': (('C05',), sc_array1d_equiv),
     'dimarray.core.dimarraycls.DimArray.from_nested': (('C05',), sc_from_nested),
